@@ -22,6 +22,7 @@ import JV.Proofs.JsonParserRefine
 import JV.Proofs.JsonParserSoundScalar
 import JV.Proofs.JsonParserSound
 import JV.Proofs.JsonParserOptsComments
+import JV.Proofs.JsonParserOptsSlashFree
 import JV.Proofs.JsonParserSoundNec
 namespace JV.Props.C02
 open JV Spec.Rfc8259
@@ -367,7 +368,7 @@ theorem parse_complete_trailing_comma (cfg : Cfg) (bs : Bytes) (v : JT) (ht : cf
     exact h)
 
 /-- SOUNDNESS with `allow_trailing_comma` (comments off): whatever the parser accepts on a text without a surrogate anomaly, the
-    reference with the trailing-comma production reads as a value, and the events are those of the value. So the option admits
+    reference with the trailing-comma production reads as a value, and the events are those of the value. So the option allows
     NOTHING but a comma before the closing bracket of a non-empty container (`[,]`, `[1,,]`, `{,}` stay errors). -/
 theorem parse_sound_trailing_comma (cfg : Cfg) (bs : Bytes) (hc : cfg.comments = false) (ht : cfg.trailingComma = true)
     (hs : NoSurrogateAnomaly bs) (h : accepted (run cfg bs) = true) :
@@ -513,6 +514,23 @@ example : (run ⟨8, true, false⟩ [47, 42, 47, 49]).err = some eUnexpectedEof 
     parseText { comments := true, trailingComma := false, maxDepth := 8 } [47, 42, 47, 49] = none := by decide
 example : (run ⟨8, false, false⟩ [91, 49, 47, 42, 42, 47, 93]).err = some eIllegalComment ∧
     parseText { comments := false, trailingComma := false, maxDepth := 8 } [91, 49, 47, 42, 42, 47, 93] = none := by decide
+
+/-- `allow_comments` relaxes NOTHING on a text without the byte `/`: the whole outcome of the parser (final state, events, error
+    code) is the same with the option on and off (the `slash` state, the only cell that consults the option, is entered by a `/`
+    only — Proofs/JsonParserOptsSlashFree) -/
+theorem comments_option_irrelevant_without_slash (cfg : Cfg) (b : Bool) (bs : Bytes) (h : ∀ x ∈ bs, x ≠ 47) :
+    run { cfg with comments := b } bs = run cfg bs :=
+  run_comments_slash_free cfg b bs h
+
+/-- EXACTNESS for EVERY option setting on `/`-free texts without surrogate anomaly: whatever `allow_comments` is, the parser
+    accepts exactly what the reference without comments and with the parser's trailing-comma flag derives -/
+theorem options_relax_exactly_slash_free (cfg : Cfg) (bs : Bytes) (h47 : ∀ x ∈ bs, x ≠ 47) (hs : NoSurrogateAnomaly bs) :
+    accepted (run cfg bs) = true ↔
+      (parseText { comments := false, trailingComma := cfg.trailingComma, maxDepth := cfg.maxDepth } bs).isSome = true := by
+  rw [← run_comments_slash_free cfg false bs h47]
+  exact parse_exact_any_trailing_comma { cfg with comments := false } bs rfl hs
+
+example : (run ⟨8, true, true⟩ [91, 49, 44, 93]).evs = (run ⟨8, false, true⟩ [91, 49, 44, 93]).evs := by decide
 
 end ParserOptions
 
